@@ -133,6 +133,10 @@ def gen_builtin(rng, nmax):
         case.update({"p": p, "n": n, "cost": "gcov", "int": False, "scale": unit, "mean": 0.5 * unit, "var": unit * unit,
                      "X": (g.normal(size=(n, p)) * unit).tolist(), "wide": True})
         return case
+    if p >= 2 and case["cost"] == "gcov" and rng.random() < 0.5:
+        # a correlated fixed covariance var * ((1 - rho) I + rho 11'), in every unit (in small units its off-diagonal entries are
+        # tiny in absolute terms although the correlation is strong)
+        case["rho"] = rng.choice([0.8, 0.3, -0.3])
     if p >= 2 and rng.random() < 0.4:  # a baseline mean per column, exactly 0 in some columns and not in others
         case["mean"] = [rng.choice([0.0, 0.0, 0.5, -1.0, 2.5]) * scale for _ in range(p)]
     return case
@@ -154,7 +158,7 @@ def direct_cost(case, rows, fixed):
     p = rows.shape[1]
     if fixed:
         mu = np.broadcast_to(np.asarray(case["mean"], dtype=float), (p,))
-        cov = np.eye(p) * float(case["var"])
+        cov = _fixed_cov(case, p)
         sign, logdet = np.linalg.slogdet(cov)
         R = rows - mu
         quad = float(np.sum(R * np.linalg.solve(cov, R.T).T))
@@ -164,6 +168,11 @@ def direct_cost(case, rows, fixed):
     if not sign > 0:
         raise RuntimeError("sample covariance not positive definite")
     return np.array([m * p * np.log(2 * np.pi) + m * logdet + m * p])
+
+
+def _fixed_cov(case, p):
+    rho = case.get("rho", 0.0)
+    return float(case["var"]) * ((1.0 - rho) * np.eye(p) + rho * np.ones((p, p)))
 
 
 def _mk(case, fixed):
@@ -181,6 +190,8 @@ def _mk(case, fixed):
         return L2Cost(param=f(case["mean"]) if fixed else None)
     if case["cost"] == "gvar":
         return GaussianVarCost(param=(f(case["mean"]), f(case["var"])) if fixed else None)
+    if fixed and case.get("rho"):
+        return GaussianCovCost(param=(f(case["mean"]), _fixed_cov(case, case["p"])))
     return GaussianCovCost(param=(f(case["mean"]), f(case["var"])) if fixed else None)
 
 
